@@ -106,7 +106,9 @@ OutOfPlace(e, m) ==
   \/ m.t = "SEG" /\ ~HasStart(m.flags) /\ rxa[e].cur # m.id
   \/ m.t \in {"ACK", "REFUSE"} /\ hInit[e] /\ m.id \notin (Ids(queued[e]) \ Ids(sfin[e]))
   \* a SESS_TERM marked as a reply although e has not asked for termination
-  \/ m.t = "TERM" /\ hInit[e] /\ m.flags = 1 /\ ~ws[e].term
+  \* (once e has acted on a SESS_TERM it is terminating, whether or not its own SESS_TERM has left the message
+  \* buffer yet: a further SESS_TERM is a duplicate which cannot be owed a second answer)
+  \/ m.t = "TERM" /\ hInit[e] /\ m.flags = 1 /\ ~ws[e].term /\ ~hTerm[e]
 
 ----------------------------------------------------------------------------
 (* clauses: sets of [tags, name, ok, kf], see ClauseLib *)
